@@ -1,7 +1,7 @@
 #!/bin/sh
 # runs the quick check of each seed's property on a scratch copy of /repo with the seed applied; writes seeded/<id>/detection.json
 cd /verif
-for d in seeded/*/; do
+for d in seeded/${1:-}*/; do
   id=$(basename $d); prop=$(echo $id | cut -d- -f1)
   W=/tmp/seedrun_$id; rm -rf $W; mkdir -p $W && cp -r /repo/pygradflow $W/
   if ! (cd $W && patch -p1 -s < /verif/$d/patch.diff) >/dev/null 2>&1; then echo "$id: patch does not apply"; rm -rf $W; continue; fi
